@@ -1092,6 +1092,10 @@ func unparsePipelinedCall(call b6.CallExpression, top bool) (string, bool) {
 	if !ok {
 		return "", false
 	}
+	if f, isCall := call.Function.AnyExpression.(b6.CallExpression); isCall && f.Pipelined && len(call.Args) == 1 {
+		// a | (b | c) is not (a | b) | c
+		rhs = "(" + rhs + ")"
+	}
 	if top {
 		return lhs + " | " + rhs, true
 	} else {
